@@ -597,3 +597,47 @@ def c01(cases, res):
     res.notes["oracle_panics_seen"] = panics
     res.notes["oracle_panics_outside_the_c_api_domain"] = excluded
     return out
+
+
+# ---------------------------------------------------------------- C08
+
+def c08(cases, res):
+    """learning on the editor histories: a whole-buffer commit (Enter / commit_preedit_buf) with learning
+    enabled leaves every multi-character phrase of the displayed conversion in the user dictionary under
+    the syllables it covers with a frequency not below the one it had (in either layer); with learning
+    disabled the user dictionary is untouched by the commit"""
+    out = []
+    commits = learned = disabled = 0
+    for case in cases:
+        sys_ = case_dict(case)
+        for i, prev, s in steps_with_prev(case):
+            if prev is None or prev.obs is None or s.obs is None or prev.dconv is None:
+                continue
+            whole = (is_key(s) and key_code(s) == KC["Enter"] and state_of(prev) == "Entering" and lst(prev.snap.get("syms", ""))
+                     and s.res == "Commit" and not lst(s.snap.get("syms", ""))) or (s.op[0] == "commit" and s.res == "1")
+            if not whole:
+                continue
+            commits += 1
+            before, after = user_dict_of(prev), user_dict_of(s)
+            if opts_of(prev)[5]:
+                disabled += 1
+                if before != after:
+                    out.append(fail("learned-although-disabled", case, i, "before %s after %s" % (before, after)))
+                continue
+            syms = lst(prev.snap.get("syms", ""))
+            for b, e, kind, text in prev.dconv["ivs"]:
+                if kind != "P" or e - b < 2 or len(text) != e - b or not all(x.startswith("S") for x in syms[b:e]):
+                    continue
+                key = ".".join(x[1:] for x in syms[b:e])
+                t = ".".join(str(x) for x in text)
+                was = max(before.get(key, {}).get(t, 0), sys_.get(key, {}).get(t, 0))
+                now = after.get(key, {}).get(t)
+                learned += 1
+                if now is None:
+                    out.append(fail("committed-phrase-not-recorded", case, i, "%s under %s; user dictionary %s" % (t, key, after.get(key))))
+                elif now < was and was <= 99999999:
+                    out.append(fail("frequency-lowered", case, i, "%s under %s: %d -> %d" % (t, key, was, now)))
+    res.notes["oracle_whole_buffer_commits"] = commits
+    res.notes["oracle_phrases_checked"] = learned
+    res.notes["oracle_commits_with_learning_disabled"] = disabled
+    return out
